@@ -86,8 +86,9 @@ def main():
         print("NOT confirmed; not imported"); return 1
     dst = os.path.join(VERIF, "seeded", sid)
     os.makedirs(dst, exist_ok=True)
-    shutil.copy(os.path.join(src, "patch.diff"), dst)
-    shutil.copy(os.path.join(src, demo), dst)
+    if os.path.realpath(src) != os.path.realpath(dst):
+        shutil.copy(os.path.join(src, "patch.diff"), dst)
+        shutil.copy(os.path.join(src, demo), dst)
     meta["confirmed_here"] = conf
     meta.setdefault("property", sid.split("-")[0])
     json.dump(meta, open(os.path.join(dst, "meta.json"), "w"), indent=1)
